@@ -71,12 +71,12 @@ def deployments(ctx):
   class Policy(world.ScriptedPolicy):
 
     def suggest(self, request):
-      if world.ScriptedPolicy.env['raise']:
+      if world.current_env()['raise']:
         raise state['exc']('scripted failure')
       return super().suggest(request)
 
     def early_stop(self, request):
-      if world.ScriptedPolicy.env['raise']:
+      if world.current_env()['raise']:
         raise state['exc']('scripted failure')
       return super().early_stop(request)
 
@@ -118,7 +118,7 @@ def deployments(ctx):
           traces.append(events)
           meta.append({'deployment': dep, 'backend': backend, 'exception': state['exc'].__name__})
           # client layer: a failed operation surfaces as RuntimeError within a bounded number of polls
-          world.ScriptedPolicy.env = {'raise': True, 'ps': [], 'md': none_md}
+          world.set_env({'raise': True, 'ps': [], 'md': none_md})
           vizier_client.environment_variables.new_suggestion_polling_secs = 0.0
           vc = vizier_client.VizierClient(w.sname('s1'), 'w9', api)
           try:
